@@ -3,6 +3,9 @@ import os, sys, json, time, hashlib, fnmatch
 
 VERIF = os.path.dirname(os.path.dirname(os.path.abspath(__file__)))
 EVIDENCE_DIR = os.path.join(VERIF, 'evidence')
+if os.path.realpath(os.environ.get('VERIF_REPO', '/repo')) != '/repo':
+    # a run against a scratch copy (mutation trial) must not overwrite the evidence of the real tree
+    EVIDENCE_DIR = os.path.join(VERIF, '.mut_evidence')
 REPLAY_DIR = os.path.join(VERIF, 'replays')
 FINDINGS = os.path.join(VERIF, 'findings', 'known_findings.json')
 
